@@ -195,14 +195,69 @@ def _resolve_closure(body, op, depth=0):
     return None
 
 
+def _resolve_fn_item(body, op, depth=0):
+    """The function item an operand denotes (`with_core(LocalHistogramCore::flush)`: the parameter `f` is that item), following moves of single-definition locals."""
+    if op.get("k") == "const":
+        return op if op.get("fn") else None
+    if depth > 6 or op.get("k") not in ("move", "copy"):
+        return None
+    pl = op["pl"]
+    if [e for e in pl["p"] if e[0] != "deref"]:
+        return None
+    l = pl["l"]
+    defs = [st["rv"] for bb in body["blocks"] for st in bb["stmts"] if st["k"] == "assign" and st["pl"]["l"] == l and not st["pl"]["p"]]
+    calls = [bb["term"] for bb in body["blocks"] if bb["term"].get("k") == "call" and bb["term"]["dest"]["l"] == l and not bb["term"]["dest"]["p"]]
+    if len(defs) != 1 or calls:
+        return None
+    rv = defs[0]
+    if rv.get("k") == "use":
+        return _resolve_fn_item(body, rv["ops"][0], depth + 1)
+    if rv.get("k") == "ref":
+        return _resolve_fn_item(body, {"k": "copy", "pl": rv["pl"]}, depth + 1)
+    return None
+
+
+def _tuple_arity(ty):
+    ty = (ty or "").strip()
+    if not (ty.startswith("(") and ty.endswith(")")):
+        return None
+    inner, depth, n, cur = ty[1:-1], 0, 0, ""
+    for ch in inner:
+        if ch in "(<[":
+            depth += 1
+        elif ch in ")>]":
+            depth -= 1
+        if ch == "," and depth == 0:
+            n += 1 if cur.strip() else 0
+            cur = ""
+        else:
+            cur += ch
+    return n + (1 if cur.strip() else 0)
+
+
 def _inline_closure_call(caller, bi, by_path):
-    """`f(x, y)` where f is a closure defined in this very body (`<closure as Fn>::call(&f, (x, y))`): replaced by the closure's body."""
+    """`f(x, y)` where f is a closure defined in this very body (`<closure as Fn>::call(&f, (x, y))`): replaced by the closure's body.
+    Where f is a function item, the call becomes the direct call of that function."""
     blocks = caller["blocks"]
     t = blocks[bi]["term"]
     if len(t.get("args", [])) != 2 or t.get("target") is None:
         return False
     rc = _resolve_closure(caller, t["args"][0])
-    if rc is None or rc[0] not in by_path:
+    if rc is None:
+        fi = _resolve_fn_item(caller, t["args"][0])
+        tup = t["args"][1]
+        if fi is None or tup.get("k") not in ("move", "copy") or tup["pl"]["p"]:
+            return False
+        n = _tuple_arity(caller["locals"][tup["pl"]["l"]]["ty"])
+        if n is None:
+            return False
+        sp = t.get("sp") or t.get("fnsp")
+        blocks[bi]["term"] = {"k": "call", "func": copy.deepcopy(fi), "args": [{"k": "move", "pl": {"l": tup["pl"]["l"], "p": [["field", i, str(i)]]}} for i in range(n)],
+                              "dest": t["dest"], "target": t["target"], "fnsp": sp, "sp": sp, "callee": fi["fn"], "callee_args": fi.get("fnargs", fi["fn"]), "targs": [],
+                              "res": fi["fn"], "res_args": fi.get("fnargs", fi["fn"]), "res_kind": "item", "inl": "fn-item-call",
+                              **({"unwind": t["unwind"]} if "unwind" in t else {})}
+        return True
+    if rc[0] not in by_path:
         return False
     cbody = copy.deepcopy(by_path[rc[0]])
     locs = caller["locals"]
